@@ -90,6 +90,19 @@ def compare_with_twin(ctx, res, w):
                     ctx.violation('intercepted call returned another value than in the twin', dict(w, decl=x['decl']))
             elif ox.value is not be.get('raised'):
                 ctx.violation('intercepted call raised another exception object than the wrapped body raised (%s)' % type(ox.value).__name__, dict(w, decl=x['decl']))
+            elif x.get('exc_origin') != y.get('exc_origin'):
+                # the same object, but is it still the service's exception as an error report shows it? (innermost traceback frame)
+                ctx.violation('the exception of an intercepted call reaches the caller with another origin (innermost traceback frame) than in the twin',
+                              dict(w, decl=x['decl'], decorated=x.get('exc_origin'), twin=y.get('exc_origin')))
+            else:
+                ctx.count('exception_origins_compared')
+    # process-wide interpreter / host settings are the same after the decorated run as before it
+    if getattr(res, 'process_state_before', None) is not None:
+        ctx.count('process_state_snapshots_compared')
+        changed = sorted(k for k in res.process_state_before if res.process_state_before[k] != res.process_state_after.get(k))
+        if changed:
+            ctx.violation('the decorated run changed process-wide state: %s' % ', '.join(changed)[:120],
+                          dict(w, before=repr([res.process_state_before[k] for k in changed])[:200], after=repr([res.process_state_after.get(k) for k in changed])[:200]))
     # the process-wide random generator is the service's: after the run it must be where the undecorated run leaves it
     if getattr(res, 'global_random_after', None) is not None and getattr(res, 'twin_global_random_after', None) is not None:
         ctx.count('global_random_stream_compared')
